@@ -90,6 +90,16 @@ func init() {
 			if g.chance(1, 2) {
 				p.Knobs.MapSeed = g.R.Uint64() | 1
 			}
+			if g.chance(1, 4) {
+				// a second client watches the transaction of a waiting request by id (the handlers share the store's
+				// watcher tables)
+				p.Profile += "+observer"
+				for i, op := range p.Scenario {
+					if (op.Kind == "set" || op.Kind == "rollback") && g.chance(1, 2) {
+						p.Knobs.Observers = append(p.Knobs.Observers, i)
+					}
+				}
+			}
 			return p
 		},
 		Arm: func(s *Sys) { s.Mon = append(s.Mon, &c08{s: s}) },
